@@ -1,6 +1,7 @@
 package bt
 
 import (
+	"time"
 	"context"
 	"fmt"
 	"os"
@@ -199,7 +200,14 @@ func NewEnv(engine, dir string) *Env {
 }
 
 func (e *Env) Close() {
-	e.svc.Close()
+	// Close takes every table's lock: a lock leaked by the implementation must not wedge the harness
+	// (the leak itself is reported where a request waits for it)
+	done := make(chan struct{})
+	go func() { e.svc.Close(); close(done) }()
+	select {
+	case <-done:
+	case <-time.After(10 * time.Second):
+	}
 	if e.tmpdir != "" {
 		os.RemoveAll(e.tmpdir)
 	}
